@@ -190,3 +190,14 @@ def run(ctx):
     )
     ok = it.lineno < min(f.lineno for f in float_sites)
     ctx.ob("C01.numeric", pod, "int is tried before float", ok, "" if ok else "float() is tried before the integer test: every int default comes back as a float", line=it.lineno)
+    # "rendering ... and parsing back" is quantified over interfaces, not over processes: one parse must not leave
+    # anything behind for the next (a memo, a flag on a module-level function, a shared default). C10's call-history
+    # rules on the docstring emitter / parser slice.
+    from . import c10
+
+    ctx.section(
+        c10.state_slice,
+        ctx,
+        "C01.state",
+        ["cdd.docstring.emit.docstring", "cdd.docstring.parse.docstring", "cdd.shared.docstring_parsers.parse_docstring"],
+    )
